@@ -852,3 +852,104 @@ func identOf(e ast.Expr) *ast.Ident {
 	id, _ := ast.Unparen(e).(*ast.Ident)
 	return id
 }
+
+// ruleUnionLiterals: the kernel's tagged unions (t_aio.Command, Submission, Completion, Result;
+// t_api.Request, Response) are structs with a Kind and one pointer member per kind. Every literal
+// of such a type names its kind and sets exactly the member of that kind: a literal whose Kind and
+// member disagree (or that lacks one of them) is dispatched to a handler that dereferences a nil
+// member, on the kernel or store goroutine.
+func ruleUnionLiterals(c *Ctx) {
+	unions := map[string]map[string]bool{ // pkg → type names
+		pkgTAio: {"Command": true, "Submission": true, "Completion": true, "Result": true},
+		pkgTApi: {"Request": true, "Response": true},
+	}
+	n := 0
+	for _, pk := range c.P.Roots {
+		if strings.Contains(pk.PkgPath, "/test") || strings.HasSuffix(pk.PkgPath, "/dst") || strings.HasPrefix(pk.PkgPath, modPath+"/pkg/client") || strings.HasPrefix(pk.PkgPath, modPath+"/cmd") && !strings.HasSuffix(pk.PkgPath, "/serve") {
+			continue
+		}
+		info := pk.TypesInfo
+		for _, fd := range allFuncDecls(pk) {
+			if fd.Body == nil || isTestFile(c.P, fd.Pos()) {
+				continue
+			}
+			occ := map[string]int{}
+			ast.Inspect(fd.Body, func(nd ast.Node) bool {
+				cl, ok := nd.(*ast.CompositeLit)
+				if !ok {
+					return true
+				}
+				tv, ok := info.Types[cl]
+				if !ok || !unions[namedPkgPath(tv.Type)][namedName(tv.Type)] {
+					return true
+				}
+				st, ok := tv.Type.Underlying().(*types.Struct)
+				if !ok {
+					return true
+				}
+				// members: pointer-to-named-struct fields (the per-kind payloads)
+				member := map[string]bool{}
+				for i := 0; i < st.NumFields(); i++ {
+					f := st.Field(i)
+					if p, ok := f.Type().(*types.Pointer); ok {
+						if _, ok := p.Elem().Underlying().(*types.Struct); ok {
+							member[f.Name()] = true
+						}
+					}
+				}
+				kind, kindConst := "", false
+				var set []string
+				for _, el := range cl.Elts {
+					kv, ok := el.(*ast.KeyValueExpr)
+					if !ok {
+						continue
+					}
+					k := exprString(kv.Key)
+					if k == "Kind" {
+						kind = exprString(kv.Value)
+						var cobj types.Object
+						switch v := ast.Unparen(kv.Value).(type) {
+						case *ast.SelectorExpr:
+							cobj = info.Uses[v.Sel]
+						case *ast.Ident:
+							cobj = info.Uses[v]
+						}
+						if cn, ok := cobj.(*types.Const); ok {
+							kind, kindConst = cn.Name(), true
+						}
+						continue
+					}
+					if member[k] {
+						if id, isId := ast.Unparen(kv.Value).(*ast.Ident); isId && id.Name == "nil" {
+							continue
+						}
+						set = append(set, k)
+					}
+				}
+				n++
+				tn := namedName(tv.Type)
+				occ[tn+kind]++
+				key := fmt.Sprintf("union-literal/%s/%s/%s.%s", pk.Name, funcName(fd), tn, kind)
+				if occ[tn+kind] > 1 {
+					key += fmt.Sprintf("#%d", occ[tn+kind])
+				}
+				switch {
+				case kind == "":
+					c.bad(key, cl.Pos(), fmt.Sprintf("%s literal without a Kind (members set: %v): it is dispatched as the zero kind", tn, set))
+				case !kindConst:
+					// kind copied from another value: the member must be decided elsewhere
+					c.ok(key, cl.Pos(), "kind copied from "+kind)
+				case len(set) == 1 && (set[0] == kind || set[0] == "ReadEnquableTasks" && kind == "ReadEnqueueableTasks"):
+					c.ok(key, cl.Pos(), "Kind "+kind+" with member "+set[0])
+				case len(set) == 0 && (tn == "Completion" || tn == "Result"):
+					c.bad(key, cl.Pos(), fmt.Sprintf("%s literal of kind %s sets no member", tn, kind))
+				default:
+					c.bad(key, cl.Pos(), fmt.Sprintf("%s literal of kind %s sets member(s) %v: the handler of %s dereferences the member named after the kind", tn, kind, set, kind))
+				}
+				return true
+			})
+		}
+	}
+	c.count("union_literals", n)
+	c.floor("tagged-union literals", n, 150)
+}
